@@ -903,6 +903,14 @@ func init() {
 						}
 					}
 					if rec == "" {
+						// ... or through a helper that does the recording (`a.recordReference(sym, node)`)
+						for _, ce := range callsIn(n, false) {
+							if h := originOf(Callee(info, ce)); h != nil && recordsReference(c, h, 0) {
+								rec = "record through " + shortName(h)
+							}
+						}
+					}
+					if rec == "" {
 						continue
 					}
 					construct := ord.next(rec)
@@ -953,4 +961,41 @@ func init() {
 			}
 			return obs
 		}})
+}
+
+// recordsReference: h (an unexported function of the module) appends to or counts a field
+// named References, itself or through another such helper.
+func recordsReference(c *Ctx, h *types.Func, depth int) bool {
+	hd := c.declOf[h]
+	if hd == nil || hd.Body == nil || h.Exported() || depth > 2 {
+		return false
+	}
+	// only helpers extracted on this tree: a function of the audited tree that records
+	// references (resolveQualifiedSymbol, for pkg:name symbols, which are global by
+	// construction) has its own obligations
+	if _, existed := loadAnchorFPs().Funcs[FuncName(h)]; existed {
+		return false
+	}
+	info := c.pkgOf[hd].TypesInfo
+	found := false
+	ast.Inspect(hd.Body, func(n ast.Node) bool {
+		switch x := n.(type) {
+		case *ast.AssignStmt:
+			for _, l := range x.Lhs {
+				if se, ok := ast.Unparen(l).(*ast.SelectorExpr); ok && se.Sel.Name == "References" {
+					found = true
+				}
+			}
+		case *ast.IncDecStmt:
+			if se, ok := ast.Unparen(x.X).(*ast.SelectorExpr); ok && se.Sel.Name == "References" {
+				found = true
+			}
+		case *ast.CallExpr:
+			if g := originOf(Callee(info, x)); g != nil && g != h && recordsReference(c, g, depth+1) {
+				found = true
+			}
+		}
+		return !found
+	})
+	return found
 }
